@@ -71,4 +71,10 @@ Emit == Chosen =>
                           posdep |-> ~PositionIndependent(a, b), tag |-> "table"]))
         /\ NatApplies => PrintT(ToJson([k |-> "pair", e |-> TextsA[vA], b |-> TextsB[vB], m |-> NatAnswer,
                                         posdep |-> ~PositionIndependent(a, b), tag |-> "natural"]))
+        \* the ranged entry next to its own un-ranged twin (and the other way round): 'X+' must keep its reach
+        /\ (BothLic /\ b.plus /\ HasSuffix(TextsB[vB], "+")) =>
+              LET twin == DropSuffix(TextsB[vB], 1)
+                  want == MatchDecl(a, b) \/ MatchDecl(a, [b EXCEPT !.plus = FALSE])
+              IN /\ PrintT(ToJson([k |-> "sat", e |-> TextsA[vA], a |-> <<twin, TextsB[vB]>>, sat |-> want, err |-> FALSE]))
+                 /\ PrintT(ToJson([k |-> "sat", e |-> TextsA[vA], a |-> <<TextsB[vB], twin>>, sat |-> want, err |-> FALSE]))
 =============================================================================
